@@ -285,6 +285,10 @@ func runC11(cfg *vh.Config) error {
 			inputs = append(inputs, input{randomSoup(r, 10), "soup", true})
 		}
 	}
+	// ---- stream 4': coverage-guided corpus (c11cov.go): inputs that reached a new basic block of the parser packages
+	for _, k := range covGuided(cfg, res, corpus) {
+		inputs = append(inputs, input{k.src, "covguided", k.emit})
+	}
 
 	// ---- stream 4a: every lexer sub-automaton x every continuation x every ending (closed, newline, end of input),
 	// in several grammatical positions; all through the oracle, a sample through the model
